@@ -1364,19 +1364,36 @@ protected:
                                 "Completed successfully for session " +
                                 std::to_string(sid));
     }
-    catch (const std::exception &ex)
+    catch (...)
     {
-      iora::core::Logger::error("Error processing HTTP request: " + std::string(ex.what()));
-
+      // EVERY exception ends here, not only std::exception: a subclass seam
+      // (onUpgradeRequest / onResponseSuppressed) that throws anything else used to
+      // escape into the pool's catch-all, and the request got neither a response
+      // nor a close. Classify by rethrowing.
+      //
       // RFC 9110: a request-parse failure maps to a specific status — 400 Bad
       // Request for a malformed method token, 501 Not Implemented for a
       // well-formed but unsupported method (HttpRequestError carries it). Any
       // other exception is a genuine 500.
       int errStatus = 500;
-      if (auto *reqErr = dynamic_cast<const HttpRequestError *>(&ex))
+      std::string errWhat = "non-standard exception";
+      try
       {
-        errStatus = reqErr->status();
+        throw;
       }
+      catch (const HttpRequestError &reqErr)
+      {
+        errStatus = reqErr.status();
+        errWhat = reqErr.what();
+      }
+      catch (const std::exception &ex)
+      {
+        errWhat = ex.what();
+      }
+      catch (...)
+      {
+      }
+      iora::core::Logger::error("Error processing HTTP request: " + errWhat);
 
       // Check if transport is still available before sending error response.
       // SR-7: enqueue under _mutex with a capture-only completion lambda, then
